@@ -54,7 +54,7 @@ def tdToDictF : List (String × Ty) → List Ty
   | (_, t) :: fs => tdToDict t :: tdToDictF fs
 end
 
-def keysOf (fs : List (String × Ty)) : List String := (fs.map Prod.fst).eraseDups
+def keysOf (fs : List (String × Ty)) : List String := dedupBy (· == ·) (fs.map Prod.fst)
 
 def reqVals (s : String) (tds : List Ty) : List Ty :=
   tds.filterMap (fun t => lookupF s t.reqF)
@@ -166,8 +166,8 @@ def reqKeys (ts : List Ty) : List String :=
   (keysOf (ts.flatMap Ty.reqF)).filter (fun s => (reqVals s ts).length == ts.length)
 /-- keys required in only some members, then keys optional in some member -/
 def optKeys (ts : List Ty) : List String :=
-  ((keysOf (ts.flatMap Ty.reqF)).filter (fun s => (reqVals s ts).length != ts.length)
-    ++ keysOf (ts.flatMap Ty.optF)).eraseDups
+  dedupBy (· == ·) ((keysOf (ts.flatMap Ty.reqF)).filter (fun s => (reqVals s ts).length != ts.length)
+    ++ keysOf (ts.flatMap Ty.optF))
 
 /-- `shrink_types` (typing.py:136-163) with `shrink_typed_dict_types` (85-133) inlined. -/
 def shrink (k : Nat) (ts : List Ty) : Ty :=
